@@ -912,6 +912,16 @@ fn main() {
                 }
             }
         }
+        Some("buildfs") => {
+            // pyxis::build on a directory tree: outcome and the files written
+            let ind = std::path::PathBuf::from(a.get(2).expect("in_dir"));
+            let outd = std::path::PathBuf::from(a.get(3).expect("out_dir"));
+            let ptr = a.get(4).and_then(|s| s.parse().ok()).unwrap_or(8usize);
+            let r = catch_unwind(AssertUnwindSafe(|| pyxis::build(&ind, &outd, ptr)));
+            match r { Ok(Ok(())) => println!("OK"), Ok(Err(e)) => println!("ERR({e:#})"), Err(_) => println!("PANIC") }
+            fn walk(d: &std::path::Path, base: &std::path::Path) { if let Ok(rd) = std::fs::read_dir(d) { for e in rd.flatten() { let p = e.path(); if p.is_dir() { walk(&p, base) } else { println!("  {}", p.strip_prefix(base).unwrap_or(&p).display()) } } } }
+            walk(&outd, &outd);
+        }
         Some("emit") => {
             // run one input through the real backend, print what it wrote and what the backend check says
             let src = std::fs::read_to_string(a.get(2).expect("file")).expect("read");
